@@ -1,0 +1,39 @@
+//go:build verif
+
+package faucetsc
+
+// Verification hook (build tag `verif` only; add-only): read-only view of the stored faucet
+// configuration; `valid` is the verdict of the contract's own validate().
+
+import (
+	"fmt"
+	"time"
+
+	cstate "0chain.net/chaincore/chain/state"
+)
+
+func VerifGovSettings(balances cstate.StateContextI) (fields map[string]string, raw map[string]int64, valid bool, owner string, err error) {
+	gn := &GlobalNode{ID: ADDRESS}
+	if err = balances.GetTrieNode(globalNodeKey, gn); err != nil {
+		return nil, nil, false, "", err
+	}
+	if gn.FaucetConfig == nil {
+		return nil, nil, false, "", fmt.Errorf("faucet global node without config")
+	}
+	raw = map[string]int64{
+		"pour_amount":      int64(gn.PourAmount),
+		"max_pour_amount":  int64(gn.MaxPourAmount),
+		"periodic_limit":   int64(gn.PeriodicLimit),
+		"global_limit":     int64(gn.GlobalLimit),
+		"individual_reset": int64(gn.IndividualReset / time.Second),
+		"global_rest":      int64(gn.GlobalReset / time.Second),
+	}
+	fields = map[string]string{"owner_id": gn.OwnerId}
+	for k, v := range raw {
+		fields[k] = fmt.Sprint(v)
+	}
+	for k, v := range gn.Cost {
+		fields["cost."+k] = fmt.Sprint(v)
+	}
+	return fields, raw, gn.validate() == nil, gn.OwnerId, nil
+}
